@@ -192,7 +192,8 @@ ClausesOf(p) ==
     [] p = "C04" -> {"Succeeds", "PlantedValid", "FDExact", "NodesOfG", "EdgesOfG", "StartsOK", "EndsOK",
                      "ConstraintsHonoured", "ObjIsCount", "OneWeightPerRoute"}
     [] p = "C07" -> {"LAEErrors", "LAEObjective", "SelfCheckAccepts", "ExactlyK", "OneWeightPerRoute"}
-    [] p = "C08" -> {"MPEInequality", "MPEObjective", "OneSlackPerRoute"}
+    [] p = "C08" -> {"Succeeds", "MPEInequality", "MPEObjective", "OneSlackPerRoute", "OneWeightPerRoute", "NonNegative",
+                     "NodesOfG", "EdgesOfG", "StartsOK", "EndsOK"}
     [] p = "C09" -> {"Succeeds", "Covers", "NodesOfG", "EdgesOfG", "StartsOK", "EndsOK", "ConstraintsHonoured", "ObjIsCount"}
     [] p = "C10" -> {"ConstraintsHonoured"}
     [] p = "ALL" -> {"NodesOfG", "EdgesOfG", "StartsOK", "EndsOK", "SimpleIfDAG", "RoutesKey",
